@@ -11,7 +11,7 @@ PathSets == {S \in SUBSET (1..Len(Paths)) : Cardinality(S) >= 1 /\ Cardinality(S
 Projects ==
     UNION { LET ps == SetToSeq(S) n == Len(ps) IN
             { [j \in 1..n |-> File(ps[j], u[j], IF f[1] = j THEN f[2] ELSE "none")]
-              : u \in [1..n -> (IF n = 1 THEN {"none"} ELSE {"none", "class", "fun"})],
+              : u \in [1..n -> (IF n = 1 THEN {"none"} ELSE {"none", "class", "fun", "inherit"})],
                 f \in ({<<0, "none">>} \cup ((1..n) \X {"lex", "syntax", "type"})) }
             : S \in PathSets }
 
